@@ -61,7 +61,9 @@ pub const FULL: &str = "=FULL(every member present, lists of two, all levels)";
 
 fn gen_alts<T: Gen>() -> Alts<T> {
     // XML documents may carry offset timestamps only through outputs; the codec itself is symmetric, so both are exercised
+    crate::dgen::ALLOW_EMPTY_WRAPPED_LISTS.with(|c| c.set(true));
     let mut a = T::alts(Pos::Xml, XML_DEPTH);
+    crate::dgen::ALLOW_EMPTY_WRAPPED_LISTS.with(|c| c.set(false));
     a.push((FULL.to_owned(), std::sync::Arc::new(|v: &mut T| *v = T::full(Pos::Xml, 2 * XML_DEPTH + 2))));
     a
 }
